@@ -436,6 +436,10 @@ def _replace_once(ctx, case, rho):
     text = case['text']
     f = pt.formula(text, density=rho) if rho is not None else pt.formula(text)
     if rho is None and f.density is not None:
+        if len(den) > 1:
+            # no density was given and the formula is not a single-atom one: there is no default to take
+            return ['formula(%r) has density %r although none was given and it holds %d different atoms '
+                    '(only a single-atom formula defaults to its atom\'s density)' % (text, f.density, len(den))]
         raise ModelError('case marked as unknown density has density %r' % f.density)
     a_src, a_tgt = _s['lookup'](src), _s['lookup'](tgt)
     del _s['post_failures'][:]
